@@ -14,7 +14,7 @@ def run(ctx, model):
     lines, pend = [], []
     lens = list(range(0, 40)) + [498, 499, 500, 501, 3998, 3999, 4000, 4001, 65000, 65499, 65500, 65519, 65520, 65535, 65536, 70000]
     for i in range(ctx.budget(1200, 12000)):
-        kind = rng.choice(["register", "unregister", "listidentity", "rr", "unit", "unit", "rr"])
+        kind = rng.choice(["register", "unregister", "listidentity", "rr", "unit", "unit", "rr", "rr-raw", "unit-raw"])
         session = rng.choice([0, 1, 0x1001, 0xFFFFFFFF, rng.getrandbits(32)])
         context = bytes(rng.getrandbits(8) for _ in range(8))
         option = rng.choice([0, 0, 1, 0xFFFFFFFF])
@@ -30,6 +30,23 @@ def run(ctx, model):
                 req, msg = UnRegisterSessionRequestPacket(), b""
             elif kind == "listidentity":
                 req, msg = ListIdentityRequestPacket(), b""
+            elif kind == "rr-raw":
+                # the plain SendRRData / SendUnitData packets with whatever the caller adds — also nothing at all
+                from pycomm3.packets import SendRRDataRequestPacket
+                req = SendRRDataRequestPacket()
+                if n % 3:
+                    req.add(data)
+                else:
+                    data = b""
+                msg = data
+            elif kind == "unit-raw":
+                from pycomm3.packets import SendUnitDataRequestPacket
+                req = SendUnitDataRequestPacket(seq)
+                if n % 3:
+                    req.add(data)
+                else:
+                    data = b""
+                msg = data
             elif kind == "rr":
                 req = GenericUnconnectedRequestPacket(service=0x0E, class_code=1, instance=1, request_data=data)
                 msg = b"\x0e\x02\x20\x01\x24\x01" + data
@@ -43,15 +60,15 @@ def run(ctx, model):
             impl = "err " + core.exn_class(e)
         ctx.case("builders", (kind, session, option, cid, seq, n))
         ctx.count("builders/" + kind)
-        lines.append("encap.build %s %d %s %d %s %d %s" % (kind, session, sx.hexb(context), option, sx.hexb(cid) if cid is not None else "N", seq, sx.hexb(msg)))
+        lines.append("encap.build %s %d %s %d %s %d %s" % (kind.split("-")[0], session, sx.hexb(context), option, sx.hexb(cid) if cid is not None else "N", seq, sx.hexb(msg)))
         pend.append((kind, impl))
         if f is not None:
             granted = {session}
             cids = {struct.unpack("<I", cid)[0]} if cid else set()
-            why = tr.check_frame(f if option == 0 else f[:20] + b"\0\0\0\0" + f[24:], granted | {0}, cids)
+            why = tr.check_frame(f if option == 0 else f[:20] + b"\0\0\0\0" + f[24:], granted | {0}, cids, mr_shape=not kind.endswith("-raw"))
             if kind == "register" and session != 0:
                 why = None   # a second registration with a live handle never happens (open() registers once per session)
-            if kind == "unit" and cid is None:
+            if kind in ("unit", "unit-raw") and cid is None:
                 why = None   # the driver never sends connected data before a Forward Open (C10)
             if why:
                 ctx.violation("builder-malformed-frame:" + why.split(" ")[0], {"kind": kind, "session": session, "cid": cid and cid.hex(), "len": n}, why)
@@ -60,7 +77,7 @@ def run(ctx, model):
         mo = out.rsplit(" frame-", 1)[0] if " frame-" in out else out
         if core.norm_err(mo) != core.norm_err(impl):
             ctx.mismatch("builders", {"kind": kind}, impl[:200], out[:200])
-        elif impl.startswith("ok") and kind in ("rr", "unit") and not out.endswith("frame-ok cpf-ok") and "N" not in lines[0]:
+        elif impl.startswith("ok") and kind in ("rr", "unit", "rr-raw", "unit-raw") and not out.endswith("frame-ok cpf-ok") and "N" not in lines[0]:
             pass
     # ---- every frame of driver histories (healthy and faulty)
     tlines, tpend = [], []
